@@ -290,3 +290,429 @@ class C01(Prop):
 
 
 PROPS["C01"] = C01()
+
+
+# ----------------------------------------------------------------------------- C05
+
+class C05(Prop):
+    rule = ("byte strings over the adversarial alphabet { @ \\ { } - e n d i f LF CR é(2 bytes) SP } exhaustively up to "
+            "length 4 (quick) / 6 (thorough), alone and spliced before/after/around the code block '{{ 1 }}' and a "
+            "comment; random strings to length 40 over the same alphabet plus directive names, their proper prefixes, "
+            "'{{--', '--}}', '\\{{', '\\@if'. The expected output is computed by the extracted reference scanner "
+            "(Spec/Text.v); inputs outside its domain (other active syntax) only run the correspondence. "
+            "Non-trivial: contains at least one of @ \\ { } -; distinct = distinct sources.")
+    explanation = ("Theorems: the reference scanner is the identity on plain text; text with no '{{', no directive and "
+                   "no NUL is one HTML token whose literal is the input (readHTML loop invariant). Correspondence: "
+                   "render model = implementation. Oracle: implementation output = reference scanner output, error iff "
+                   "the scanner says the comment is unterminated.")
+    assumptions = ["no NUL bytes (the lexer treats NUL as end of input)"]
+    ALPHA = [b"@", b"\\", b"{", b"}", b"-", b"e", b"n", b"d", b"i", b"f", b"\n", b"\r", b"\xc3\xa9", b" "]
+    WORDS = [b"@if", b"@end", b"@else", b"@elseif", b"@each", b"@for", b"@break", b"@breakIf", b"@continue", b"@continueIf",
+             b"@slot", b"@component", b"@insert", b"@reserve", b"@use", b"@dump", b"@i", b"@en", b"@els", b"@eac", b"@brea",
+             b"@compon", b"{{--", b"--}}", b"\\{{", b"\\@if", b"\\@end", b"\\@each", b"{{ 1 }}", b"{{ 42 }}", b"}}", b"{", b"}",
+             b"\\", b"\\\\", b"-", b"--", b"<p>", b"text", b"\n", b"\r\n", b"\xc3\xa9", b" ", b"@", b"@@", b"e", b"{{--x--}}",
+             b"{{-- @if(x) {{ y }} --}}", b"{{---}}", b"{{-- - --}}", b"{{--}}"]
+
+    def generate(self, rng, tier):
+        srcs = []
+        maxlen = {"quick": 4, "thorough": 5, "search": 3}[tier]
+        base = []
+        for n in range(0, maxlen + 1):
+            for t in itertools.product(self.ALPHA, repeat=n):
+                base.append(b"".join(t))
+        srcs += base
+        # spliced around a code block and a comment
+        short = [b for b in base if len(b) <= (3 if tier != "thorough" else 4)]
+        for b in short:
+            srcs.append(b + b"{{ 1 }}")
+            srcs.append(b"{{ 1 }}" + b)
+            srcs.append(b"{{-- c --}}" + b)
+            srcs.append(b + b"{{-- c --}}")
+        for a in short[:: 7]:
+            for b in short[:: 97]:
+                srcs.append(a + b"{{ 7 }}" + b)
+                srcs.append(b"{{--" + a + b"--}}" + b)
+        nrand = {"quick": 20000, "thorough": 200000, "search": 50000}[tier]
+        for _ in range(nrand):
+            k = rng.choice([1, 2, 3, 4, 6, 8, 12])
+            srcs.append(b"".join(rng.choice(self.WORDS if rng.random() < 0.7 else self.ALPHA) for _ in range(k)))
+        lines = ["C05:%d\txtext\t%s" % (i, hx(s)) for i, s in enumerate(srcs)]
+        return lines, {"exhaustive": False, "distribution": distribution(srcs),
+                       "exhaustive_part": "all strings over 14 symbols up to length %d, alone and spliced" % maxlen}
+
+    def nontrivial(self, r):
+        f = r["case"].split("\t")
+        return any(x in f[2] for x in ("40", "5c", "7b", "7d", "2d"))
+
+
+PROPS["C05"] = C05()
+
+
+# ----------------------------------------------------------------------------- valid template grammar (atoms with depth)
+
+class TemplateGen:
+    """generates valid templates as atom lists; depth[i] > 0 after atom i means an open construct"""
+
+    def __init__(self, rng):
+        self.rng = rng
+
+    def expr(self, d=0):
+        r = self.rng
+        x = r.random()
+        if d > 2 or x < 0.35:
+            return [(r.choice(["1", "2", "x", "y", "true", "nil", "3.5", "a.b", "n"]), 0)]
+        if x < 0.6:
+            return self.expr(d + 1) + [(" " + r.choice(["+", "-", "*", "/", "==", "<", ">="]) + " ", 0)] + self.expr(d + 1)
+        if x < 0.68:
+            return self.expr(d + 1) + [(" ? ", 0)] + self.expr(d + 1) + [(" : ", 0)] + self.expr(d + 1)
+        if x < 0.76:
+            return [("(", +1)] + self.expr(d + 1) + [(")", -1)]
+        if x < 0.84:
+            return [(r.choice(['"', "'"]), +1), ("str", 0), (None, -1)]      # closing quote filled below
+        if x < 0.9:
+            return [("{", +1), ("k: ", 0)] + self.expr(d + 1) + [("}", -1)]
+        if x < 0.95:
+            return [("[", +1)] + self.expr(d + 1) + [(", ", 0)] + self.expr(d + 1) + [("]", -1)]
+        return [("x.f(", +1)] + self.expr(d + 1) + [(")", -1)]
+
+    def fix_quotes(self, atoms):
+        out, stack = [], []
+        for a, dd in atoms:
+            if a in ('"', "'") and dd == +1:
+                stack.append(a)
+                out.append((a, dd))
+            elif a is None:
+                out.append((stack.pop(), dd))
+            else:
+                out.append((a, dd))
+        return out
+
+    def stmt(self, d=0):
+        r = self.rng
+        x = r.random()
+        if d > 2 or x < 0.25:
+            return [(r.choice(["text ", "<p>", "\n", " ", "a\nb", "x"]), 0)]
+        if x < 0.45:
+            return [("{{ ", 0)] + self.expr() + [(" }}", 0)]
+        if x < 0.5:
+            return [("{{ v = ", 0)] + self.expr() + [(" }}", 0)]
+        if x < 0.65:
+            a = [("@if(", +1)] + self.expr() + [(")", 0)] + self.block(d + 1)
+            for _ in range(r.choice([0, 0, 1, 2])):
+                a += [("@elseif(", +1)] + self.expr() + [(")", -1)] + self.block(d + 1)
+            if r.random() < 0.5:
+                a += [("@else", 0)] + self.block(d + 1)
+            return a + [("@end", -1)]
+        if x < 0.75:
+            return [("@each(v in ", +1)] + self.expr() + [(")", 0)] + self.block(d + 1) + [("@end", -1)]
+        if x < 0.82:
+            return [("@for(i = 0; i < 3; i++", +1), (")", 0)] + self.block(d + 1) + [("@end", -1)]
+        if x < 0.87:
+            return [("{{--", +1), (" note ", 0), ("--}}", -1)]
+        if x < 0.92:
+            return [("@insert('a'", +1), (")", 0)] + self.block(d + 1) + [("@end", -1)]
+        if x < 0.96:
+            return [("@dump(", +1)] + self.expr() + [(")", -1)]
+        return [("@breakIf(", +1)] + self.expr() + [(")", -1)]
+
+    def block(self, d):
+        out = [(self.rng.choice(["x", "A", " b "]), 0)]
+        for _ in range(self.rng.choice([0, 1, 1, 2])):
+            out += self.stmt(d)
+        return out
+
+    def template(self):
+        atoms = []
+        for _ in range(self.rng.choice([1, 2, 3])):
+            atoms += self.stmt()
+        return self.fix_quotes(atoms)
+
+
+# ----------------------------------------------------------------------------- C08
+
+class C08(Prop):
+    timeout_ms = 4000
+    rule = ("(a) every sequence of up to 2 lexemes from the 76-lexeme alphabet (exhaustive) and sampled (quick) or all "
+            "(thorough) triples; (b) generated valid templates, every prefix at an atom boundary - prefixes that leave "
+            "an @-block, object literal, string, comment or directive argument list open must be rejected (ids C08e); "
+            "(c) single-atom deletion / duplication / swap of valid templates; (d) templates with an illegal character "
+            "inside code (must be rejected); (e) random lexeme soups. Each input goes through the parser API (program "
+            "or errors) ; a sample also through EvaluateString. A watchdog outside the process records hangs. "
+            "Non-trivial: at least 2 lexemes; distinct = distinct sources.")
+    explanation = ("Theorems: the lexer model needs no fuel beyond the input length (every token consumes a byte), so "
+                   "lexing terminates and yields at most length+3 tokens. Correspondence: parser model = implementation "
+                   "(error count, first error line and message, or the full AST). Oracle: returned, no panic, program or "
+                   ">= 1 error with line >= 1; open-construct prefixes and illegal characters rejected.")
+    assumptions = ["an unterminated '{{ expr' with no closing '}}' at the very end of the input is not counted as an open "
+                   "construct (the property lists block, object literal, string, comment, directive argument list)"]
+
+    def generate(self, rng, tier):
+        cases = []   # (idprefix, kind, bytes)
+        for a in LEXEMES:
+            cases.append(("C08", "parse", a))
+            for b in LEXEMES:
+                cases.append(("C08", "parse", a + b))
+        ntri = {"quick": 12000, "thorough": len(LEXEMES) ** 3, "search": 30000}[tier]
+        if tier == "thorough":
+            for a in LEXEMES:
+                for b in LEXEMES:
+                    for c in LEXEMES:
+                        cases.append(("C08", "parse", a + b + c))
+        else:
+            for _ in range(ntri):
+                cases.append(("C08", "parse", rng.choice(LEXEMES) + rng.choice(LEXEMES) + rng.choice(LEXEMES)))
+        ntpl = {"quick": 400, "thorough": 5000, "search": 1500}[tier]
+        tg = TemplateGen(rng)
+        for _ in range(ntpl):
+            atoms = tg.template()
+            full = "".join(a for a, _ in atoms).encode()
+            cases.append(("C08", "parse", full))
+            depth = 0
+            for i, (a, dd) in enumerate(atoms[:-1]):
+                depth += dd
+                pre = "".join(x for x, _ in atoms[: i + 1]).encode()
+                cases.append(("C08e" if depth > 0 else "C08", "parse", pre))
+            if len(atoms) > 1:
+                for _ in range(3):
+                    i = rng.randrange(len(atoms))
+                    j = rng.randrange(len(atoms))
+                    m = list(atoms)
+                    op = rng.choice(["del", "dup", "swap"])
+                    if op == "del":
+                        del m[i]
+                    elif op == "dup":
+                        m.insert(i, m[i])
+                    else:
+                        m[i], m[j] = m[j], m[i]
+                    cases.append(("C08", "parse", "".join(x for x, _ in m).encode()))
+                # an illegal character inside code
+                code_pos = [i for i, (a, _) in enumerate(atoms) if a.startswith("{{ ")]
+                if code_pos:
+                    i = rng.choice(code_pos)
+                    m = list(atoms)
+                    m.insert(i + 1, (rng.choice(["#", "$", "~", "^", "&", "|", "`"]), 0))
+                    cases.append(("C08e", "parse", "".join(x for x, _ in m).encode()))
+        nsoup = {"quick": 8000, "thorough": 100000, "search": 20000}[tier]
+        for _ in range(nsoup):
+            k = rng.choice([4, 5, 6, 8, 12, 20, 30])
+            cases.append(("C08", rng.choice(["parse", "parse", "parse", "render", "lex"]),
+                          b"".join(rng.choice(LEXEMES) for _ in range(k))))
+        lines = ["%s:%d\t%s\t%s" % (p, i, k, hx(s)) for i, (p, k, s) in enumerate(cases)]
+        dist = distribution([s for _, _, s in cases])
+        dist["must_be_rejected"] = sum(1 for p, _, _ in cases if p == "C08e")
+        return lines, {"exhaustive": False, "distribution": dist,
+                       "exhaustive_part": "all sequences of <= %d lexemes" % (3 if tier == "thorough" else 2)}
+
+    def nontrivial(self, r):
+        return len(r["case"].split("\t")[2]) >= 6
+
+
+PROPS["C08"] = C08()
+
+
+# ----------------------------------------------------------------------------- C09
+
+BUILTINS = {
+    "str": ["len", "split", "raw", "trim", "trimRight", "trimLeft", "upper", "lower", "capitalize", "reverse", "contains",
+            "truncate", "decimal", "at", "first", "last", "repeat"],
+    "arr": ["len", "join", "rand", "reverse", "slice", "shuffle", "contains", "append", "prepend"],
+    "float": ["int", "str", "abs", "ceil", "floor", "round"],
+    "int": ["float", "abs", "str", "len", "decimal"],
+    "bool": ["binary", "then"],
+}
+RECEIVERS = {
+    "str": ['""', '"abc"', '"héllo wörld"', '" x "', '"12"', '"-7"', '"a,b,c"', "sv", "uv"],
+    "arr": ["[]", "[1, 2, 3]", '["a", "b"]', "[[1], [2]]", "[{k: 1}]", "av", "ev", "[nil, true]"],
+    "float": ["0.0", "1.5", "2.5", "3.0", "fv", "gv", "100.125"],
+    "int": ["0", "7", "9223372036854775807", "iv", "mv", "12345"],
+    "bool": ["true", "false", "bv"],
+}
+ARGKINDS = {"int": ["0", "1", "2", "-1", "3", "100"], "float": ["1.5", "0.0"], "str": ['"a"', '""', '","', '"é"'],
+            "bool": ["true", "false"], "nil": ["nil"], "arr": ["[1]", "[]"], "obj": ["{k: 1}", "ov"]}
+HOSTILE_DATA = {
+    "sv": "(str %s)" % hx("dätä <b>"), "uv": "(str %s)" % hx("\xff\xfe broken"), "av": "(slice (int 1) (str 61) (nil))",
+    "ev": "(slice)", "fv": "(f64 %s)" % f64bits(-0.5), "gv": "(f64 %s)" % f64bits(1e300), "iv": "(int -9223372036854775808)",
+    "mv": "(int -1)", "bv": "(bool 1)", "ov": "(map (%s (int 1)) (%s (nil)))" % (hx("k"), hx("")),
+    "pv": "(ptr (int 5))", "np": "(nilptr int)", "st": "(struct (Name (str 626f62)) (Tags (tslice str (str 61) (str 62))) (P (nilptr str)))",
+    "nn": "(nil)", "u8": "(uint8 255)", "u64": "(uint64 18446744073709551615)", "f32": "(f32 %s)" % f64bits(0.5),
+    "deep": "(slice (map (%s (slice (ptr (struct (X (int 1))))))))" % hx("q"),
+}
+
+
+def hostile_data():
+    return "(" + " ".join("(%s %s)" % (hx(k), v) for k, v in HOSTILE_DATA.items()) + ")"
+
+
+class C09(Prop):
+    timeout_ms = 4000
+    rule = ("(a) untyped programs: any expression form in any position (operators, index, dot, calls, loops headers, "
+            "directive arguments) over literals and data variables of every value kind, bounded loops; (b) every built-in "
+            "x receivers (empty, ASCII, multi-byte, invalid UTF-8, boundary integers, nested arrays/objects) x argument "
+            "kind tuples of arity <= 2 (all) and 3 (sampled) x boundary counts {MinInt64, -len-1, -len, -1, 0, 1, len-1, "
+            "len, len+1, 1000}; (c) data maps with nil pointers, pointers, structs, all integer widths, nested "
+            "unsupported values. Oversized repeat/decimal counts are a recorded known finding (one witness each run). "
+            "Non-trivial: the program contains at least one operator, call or directive.")
+    explanation = ("Correspondence: render model = implementation (the model marks every Go panic site with an explicit "
+                   "Panic outcome). Oracle: the implementation returned output or an error, never panicked or crashed; "
+                   "evaluation errors carry a line >= 1.")
+    assumptions = ["infinite loops written in the template (e.g. @for(;;) with no break) are not crashes and are skipped"]
+
+    ATOMS = ["1", "0", "-1", "2", "7", "sv", "uv", "av", "ev", "fv", "gv", "iv", "mv", "bv", "ov", "pv", "np", "st", "nn", "u8",
+             "u64", "f32", "deep", '"s"', '""', "true", "false", "nil", "3.5", "0.5", "[1,2]", "[]", "{k: 1}", "{}", "av[0]",
+             "ov.k", "st.Name", "st.name", "st.Tags", "st.P", "deep[0].q", "9223372036854775807", "zz", 'ov[""]', "ov['']"]
+    OPS = ["+", "-", "*", "/", "%", "==", "!=", "<", ">", "<=", ">="]
+
+    def expr(self, rng, d=0):
+        r = rng.random()
+        if d > 3 or r < 0.3:
+            return rng.choice(self.ATOMS)
+        if r < 0.55:
+            return self.expr(rng, d + 1) + " " + rng.choice(self.OPS) + " " + self.expr(rng, d + 1)
+        if r < 0.62:
+            return self.expr(rng, d + 1) + " ? " + self.expr(rng, d + 1) + " : " + self.expr(rng, d + 1)
+        if r < 0.68:
+            return "(" + self.expr(rng, d + 1) + ")"
+        if r < 0.73:
+            return rng.choice(["-", "!"]) + self.expr(rng, d + 1)
+        if r < 0.8:
+            return rng.choice(self.ATOMS + ["(" + self.expr(rng, d + 1) + ")"]) + "[" + self.expr(rng, d + 1) + "]"
+        if r < 0.86:
+            return rng.choice(self.ATOMS + ["(" + self.expr(rng, d + 1) + ")"]) + "." + rng.choice(["k", "Name", "x", "len", "q"])
+        if r < 0.96:
+            ty = rng.choice(list(BUILTINS))
+            fn = rng.choice(BUILTINS[ty])
+            args = ", ".join(self.expr(rng, d + 2) for _ in range(rng.choice([0, 0, 1, 1, 2])))
+            return rng.choice(self.ATOMS + RECEIVERS[ty]) + "." + fn + "(" + args + ")"
+        return rng.choice(self.ATOMS) + rng.choice(["++", "--"])
+
+    def stmt(self, rng, d=0):
+        r = rng.random()
+        if d > 2 or r < 0.15:
+            return rng.choice(["text ", "<p>", "\n"])
+        if r < 0.45:
+            return "{{ " + self.expr(rng) + " }}"
+        if r < 0.52:
+            return "{{ " + rng.choice(["x", "y", "loop", "sv", "iv"]) + " = " + self.expr(rng) + " }}"
+        if r < 0.64:
+            return "@if(" + self.expr(rng) + ")" + self.block(rng, d + 1) + \
+                   "".join("@elseif(" + self.expr(rng) + ")" + self.block(rng, d + 1) for _ in range(rng.choice([0, 0, 1]))) + \
+                   rng.choice(["", "@else" + self.block(rng, d + 1)]) + "@end"
+        if r < 0.76:
+            return "@each(" + rng.choice(["v", "x", "loop", "sv"]) + " in " + self.expr(rng) + ")" + self.block(rng, d + 1) + \
+                   rng.choice(["", "@else" + self.block(rng, d + 1)]) + "@end"
+        if r < 0.86:
+            init = rng.choice(["i = 0", "", "i = 0.5", 'i = "a"', "j = 1"])
+            cond = rng.choice(["i < 3", "", "i < 2.5", "false", "nil", "zz", "i < av"])
+            post = rng.choice(["i++", "", "i = i + 1", "i--", "j++", 'i = "s"'])
+            body = self.block(rng, d + 1)
+            if cond in ("", "nil") or post in ("", "i--", "j++") or init in ("", "j = 1"):
+                body += rng.choice(["@break", "@breakIf(true)"])
+            return "@for(" + init + "; " + cond + "; " + post + ")" + body + "@end"
+        if r < 0.93:
+            return rng.choice(["@break", "@continue", "@breakIf(" + self.expr(rng) + ")", "@continueIf(" + self.expr(rng) + ")",
+                               "{{ loop.index }}", "{{ loop.zz }}", "{{ v }}"])
+        return rng.choice(["@slot", "@slot('n')", "@insert('a', " + self.expr(rng) + ")", "@reserve('a')", "@component('c', {a: " +
+                           self.expr(rng) + "})", "@use('x')", "@component(" + self.expr(rng) + ")"])
+
+    def block(self, rng, d):
+        return "x" + "".join(self.stmt(rng, d) for _ in range(rng.choice([1, 1, 2])))
+
+    def boundary(self, ty, recv):
+        n = {"str": 3, "arr": 3}.get(ty, 3)
+        return ["-9223372036854775808", str(-n - 1), str(-n), "-1", "0", "1", str(n - 1), str(n), str(n + 1), "1000"]
+
+    def generate(self, rng, tier):
+        data = hx(hostile_data())
+        srcs = []
+        nprog = {"quick": 6000, "thorough": 120000, "search": 20000}[tier]
+        for _ in range(nprog):
+            srcs.append("".join(self.stmt(rng) for _ in range(rng.choice([1, 2]))))
+        kinds = list(ARGKINDS)
+        for ty, fns in BUILTINS.items():
+            for fn in fns:
+                recvs = RECEIVERS[ty]
+                tuples = [()] + [(a,) for a in kinds] + [(a, b) for a in kinds for b in kinds]
+                tri = [(a, b, c) for a in kinds for b in kinds for c in kinds]
+                if tier != "thorough":
+                    rng.shuffle(tri)
+                    tri = tri[:12]
+                for tup in tuples + tri:
+                    recv = rng.choice(recvs)
+                    args = ", ".join(rng.choice(ARGKINDS[k]) for k in tup)
+                    srcs.append("{{ %s.%s(%s) }}" % (recv if recv[0] not in "-0123456789" or True else recv, fn, args))
+                for recv in recvs:
+                    for b in self.boundary(ty, recv):
+                        srcs.append("{{ %s.%s(%s) }}" % (recv, fn, b))
+                        srcs.append("{{ %s.%s(%s, %s) }}" % (recv, fn, rng.choice(['"."', "1", "0"]), b))
+        # the recorded known finding, one witness per run
+        srcs.append('{{ "ab".repeat(9223372036854775807) }}')
+        lines = ["C09:%d\trender\t%s\t%s" % (i, hx(s), data) for i, s in enumerate(srcs)]
+        # data-binding faults
+        bad = ["(chan)", "(func)", "(complex)", "(slice (int 1) (chan))", "(map (%s (func)))" % hx("k"), "(struct (F (chan)))",
+               "(ptr (chan))", "(nilptr int)", "(ptr (ptr (int 3)))", "(struct (a (chan)) (B (int 1)))", "(tslice int (int 1) (int 2))",
+               "(tmap str (%s (str 61)))" % hx("k"), "(slice (nilptr str) (ptr (str 61)))", "(array2)"]
+        for i, b in enumerate(bad):
+            for src in ["{{ v }}", "x", "{{ v.F }}", "@each(e in v){{ e }}@end", "@dump(v)"][:4]:
+                lines.append("C09:d%d_%d\trender\t%s\t%s" % (i, len(lines), hx(src), hx("((%s %s))" % (hx("v"), b))))
+        return lines, {"exhaustive": False, "distribution": distribution([s.encode() for s in srcs]),
+                       "builtin_cases": sum(1 for s in srcs if s.startswith("{{ ") and "(" in s)}
+
+    def classify(self, r, known):
+        f = r["case"].split("\t")
+        for k in known:
+            if k.get("witness_hex") and k["witness_hex"] == f[2]:
+                return k
+        return None
+
+
+PROPS["C09"] = C09()
+
+
+# ----------------------------------------------------------------------------- C10
+
+class C10(Prop):
+    rule = ("string literal contents over the alphabet { < > & ; # \" ' a é SP } exhaustively up to length 3 (quick) / 5 "
+            "(thorough) plus existing entities (&amp; &#34; &lt; &#39; &quot;) and random longer strings x both quote "
+            "styles x usage contexts: printed directly, concatenated with another literal, stored in a variable, placed "
+            "in an array and indexed, through a ternary, and with raw(). Expected output from the extracted "
+            "specification (esc_spec; raw() = original text). Non-trivial: the content has at least one of < > & \" '.")
+    explanation = ("Theorems on the specification escaper: output has no raw '<' or '>', every '&' starts one of "
+                   "&amp; &lt; &gt;, quotes are kept, unescaping gives back the literal; the model's evalString "
+                   "(html.EscapeString then quote restoration) equals the specification escaper. Correspondence: render "
+                   "model = implementation. Oracle: implementation output = specification output.")
+    assumptions = ["literal contents contain no backslash and no NUL (the lexer's quote unescaping is C19/C08's subject)",
+                   "insert / component argument contexts are exercised under C06 / C07"]
+    ALPHA = ["<", ">", "&", ";", "#", '"', "'", "a", "é", " "]
+    ENT = ["&amp;", "&#34;", "&lt;", "&#39;", "&quot;", "&gt;", "&#x3c;", "&", "&&", "<b>", "</b>", "&#38;"]
+
+    def generate(self, rng, tier):
+        contents = []
+        maxlen = {"quick": 3, "thorough": 5, "search": 3}[tier]
+        for n in range(0, maxlen + 1):
+            for t in itertools.product(self.ALPHA, repeat=n):
+                contents.append("".join(t))
+        contents += self.ENT
+        for _ in range({"quick": 2000, "thorough": 30000, "search": 6000}[tier]):
+            contents.append("".join(rng.choice(self.ALPHA + self.ENT) for _ in range(rng.choice([2, 4, 6, 10, 16]))))
+        lines = []
+        for i, c in enumerate(contents):
+            dq = rng.choice(["0", "1"])
+            lit = "(str %s %s)" % (hx(c), dq)
+            other = "(str %s %s)" % (hx(rng.choice(["", "x", "<", "&amp;", "'"])), rng.choice(["0", "1"]))
+            ctxs = [("xexpr", lit), ("xexpr", "(bin add %s %s)" % (lit, other)), ("xexpr", "(bin add %s %s)" % (other, lit)),
+                    ("xassign", lit), ("xexpr", "(idx (arr %s %s) (int 0))" % (lit, other)),
+                    ("xexpr", "(tern (bool 1) %s %s)" % (lit, other)), ("xexpr", "(call %s raw)" % lit),
+                    ("xexpr", "(bin eq %s %s)" % (lit, lit))]
+            picks = ctxs if (tier == "thorough" or len(c) <= 2) else [ctxs[0], ctxs[6], rng.choice(ctxs[1:6])]
+            for j, (kind, tree) in enumerate(picks):
+                seps = ",".join(str(rng.randrange(8)) for _ in range(12))
+                lines.append("\t".join(["C10:%d_%d" % (i, j), kind, hx(tree), "-", hx(seps), "-"]))
+        return lines, {"exhaustive": False, "distribution": distribution([c.encode() for c in contents]),
+                       "exhaustive_part": "all contents over 10 symbols up to length %d" % maxlen}
+
+    def nontrivial(self, r):
+        f = r["case"].split("\t")
+        return any(x in f[2] for x in ("3c", "3e", "26", "22", "27"))
+
+
+PROPS["C10"] = C10()
